@@ -1,6 +1,9 @@
 package sym
 
 import (
+	"path/filepath"
+	"strconv"
+	"strings"
 	"sync"
 
 	"golang.org/x/tools/go/ssa"
@@ -209,6 +212,31 @@ func (c *Ctx) initNeed(fr *frame, v ssa.Value) {
 
 // RunInitFunc runs an explicit init body such as "init#1" of a package.
 func (c *Ctx) RunInitFunc(p *ssa.Package, name string) {
+	// "init@file.go:2" selects the 2nd explicit init function of that file
+	if strings.HasPrefix(name, "init@") {
+		spec := name[len("init@"):]
+		file, nth := spec, 1
+		if i := strings.LastIndex(spec, ":"); i >= 0 {
+			file = spec[:i]
+			nth, _ = strconv.Atoi(spec[i+1:])
+		}
+		var cands []*ssa.Function
+		for k := 1; ; k++ {
+			f := p.Func("init#" + strconv.Itoa(k))
+			if f == nil {
+				break
+			}
+			pos := c.Prog.Fset.Position(f.Pos())
+			if filepath.Base(pos.Filename) == file {
+				cands = append(cands, f)
+			}
+		}
+		if nth < 1 || nth > len(cands) {
+			c.unsupported("no init function %s in %s", name, p.Pkg.Path())
+		}
+		c.CallFn(cands[nth-1], nil, nil)
+		return
+	}
 	f := p.Func(name)
 	if f == nil {
 		c.unsupported("no init function %s in %s", name, p.Pkg.Path())
